@@ -124,6 +124,12 @@ def impl_class(rec, fresh_check_ok):
     return 2
 
 
+def ast_assign_named(n, name):
+    import ast as _ast
+    ok = isinstance(n, _ast.Assign) and len(n.targets) == 1 and isinstance(n.targets[0], _ast.Name) and n.targets[0].id == name
+    return _ast.Assign if ok else type(None)
+
+
 def run(ctx):
     generate(ctx)
     info = ctx.coq_props()
@@ -132,7 +138,12 @@ def run(ctx):
     inv = tr_inventory.inventory(ctx.repo)
 
     # ---- histories: fresh single-op references, corpus, random
-    probe, pool, meta = run_impl(ctx, [[["check", "plain"]]], workers=1)
+    import sys as _sys
+    _sys.path.insert(0, str(ctx.dir))
+    import ast as _ast
+    # pool names / META are data in pool_defs.py; read them without importing guppylang
+    _src = _ast.parse((ctx.dir / "pool_defs.py").read_text())
+    pool = sorted(k.value for n in _ast.walk(_src) if isinstance(n, ast_assign_named(n, "POOL")) for k in n.value.keys)
     import time as _t
     t_a = _t.time()
     # a fresh interpreter per (check|compile, name); the pycall references share one fresh
@@ -141,12 +152,13 @@ def run(ctx):
     corpus = []
     for f in sorted((ctx.dir / "corpus").glob("*.json")):
         corpus += json.loads(f.read_text())["histories"]
-    n_rand = 40 if ctx.quick else 700
+    n_rand = 30 if ctx.quick else 700
     rand = gen_histories(r, pool, n_rand, 3, 9 if ctx.quick else 14)
     # long histories advance the counters far (digit roll-overs at 10 / 100)
-    rand += gen_histories(r, pool, 4 if ctx.quick else 50, 25, 40)
+    rand += gen_histories(r, pool, 3 if ctx.quick else 50, 25, 40)
     histories = corpus + rand
-    res_all, _, _ = run_impl(ctx, fresh_hist + histories)
+    res_all, pool_impl, meta = run_impl(ctx, fresh_hist + histories)
+    assert pool_impl == pool, (pool_impl, pool)
     fresh_res, res = res_all[:len(fresh_hist)], res_all[len(fresh_hist):]
     harness_fail = [i for i, x in enumerate(res_all) if not isinstance(x, list)]
     if harness_fail:
@@ -203,6 +215,16 @@ def run(ctx):
     cone_checked = 0
     sample_model = []
     model_ok = (vlib.COQ / "C11" / "ModelEngine.vo").exists()
+    # definitions whose cone contains a comptime definition: the real engine discovers the
+    # callees of a traced body lazily during compile, the model (abstraction) during check
+    def cone(n, seen=None):
+        seen = set() if seen is None else seen
+        if n not in seen:
+            seen.add(n)
+            for d in meta[n]["deps"]:
+                cone(d, seen)
+        return seen
+    lazy = {n for n in pool if any(meta[m]["comptime"] for m in cone(n))}
     if model_ok:
         mh = [h for h, out in zip(histories, res) if isinstance(out, list)]
         mo = [out for out in res if isinstance(out, list)]
@@ -221,7 +243,7 @@ def run(ctx):
                             bad.append(("status_class", mstat, istat))
                         if bool(mtr) != rec["obs"]["tracing"]:
                             bad.append(("tracing", bool(mtr), rec["obs"]["tracing"]))
-                        if istat == 0 and rec["op"] != "pycall":
+                        if istat == 0 and rec["op"] != "pycall" and not (rec["op"] == "check" and rec["name"] in lazy):
                             cone_checked += 1
                             if sorted(pool[k] for k in mchk) != rec["obs"]["checked"]:
                                 bad.append(("checked_set", sorted(pool[k] for k in mchk), rec["obs"]["checked"]))
